@@ -123,10 +123,17 @@ def trait_arg(tr):
     return last_seg(inner.split(",")[0])
 
 
+STR_PARSE = re.compile(r"^core::str::<impl str>::parse::<(.+)>$")
+
+
 def short_callee(full):
     """canonical short name of a resolved callee path"""
     s = full
     method = None
+    # `text.parse::<T>()` is `T::from_str(text)` (its whole body)
+    m0 = STR_PARSE.match(s)
+    if m0:
+        return "%s::from_str" % last_seg(strip_generics(m0.group(1)))
     # <T as Trait>::method...
     if s.startswith("<"):
         inner, after = balanced_inner(s, 0)
@@ -187,6 +194,22 @@ def norm(v):
         return repr(v[2])
     if k == "adt":
         name = v[2]
+        # a value with a known variant that is re-assembled from its own projections is that value
+        # (`match x { Value::Int(i) => Value::Int(i) }` / a catch-all binding after other arms)
+        if v[3] and v[1] not in ("std::option::Option", "std::result::Result"):
+            base = None
+            same = True
+            for i, x in enumerate(v[3]):
+                y = x
+                while y[0] in ("rref", "box"):
+                    y = y[1]
+                if y[0] == "proj" and y[2] == ("vf", v[2], i) and (base is None or base == y[1]):
+                    base = y[1]
+                else:
+                    same = False
+                    break
+            if same and base is not None:
+                return norm(base)
         if v[1] == "std::option::Option" and name == "None":
             name = "Option::None"     # keep apart from the Value::None / Expr::None constructors
         args = tuple(norm(x) for x in v[3])
